@@ -1,4 +1,5 @@
 """C14 -- nonsymmetric-cone barrier calculus (structural clauses)"""
+import re
 from engine.mir import last_seg, show, AnchorError, strip_generics
 from engine.preds import canon, Walker
 from engine.effects import IDX, fmt_path
@@ -28,7 +29,8 @@ EXPLANATION = (
     "membership tests of the exponential, power and generalised power cones return true only under the sign conditions of "
     "the cone (the domain of their logarithms) and a positive residual; (R8) the Newton start point of the 3-d power cone equals "
     "the generalised power cone's start point specialised to exponents (alpha, 1-alpha) as a rational function with identified "
-    "radicands (finding F7, fixed: psi was hard-wired to its alpha = 1/2 value).")
+    "radicands (finding F7, fixed: psi was hard-wired to its alpha = 1/2 value); (R9) the shared one-sided Newton iteration stops on "
+    "a relative step.")
 ASSUMPTIONS = ['rustc MIR construction and trait resolution are correct',
                'R4: identities over the reals; log(a b) = log a + log b and omega + log omega = x for omega = wright_omega(x)']
 
@@ -518,6 +520,31 @@ def newton_start_siblings(rep, F, E, tag):
     R.guard(body)
 
 
+def newton_relative_stop(rep, F, tag):
+    """The root of the scalar equation behind gradient_primal scales like 1/|s|: a step-size test against sqrt(eps) must be
+    relative to the iterate, otherwise the iteration stops at once for large slacks (and returns the start point)."""
+    R = rep.rule('C14.R9', 'the one-sided Newton iteration stops on a relative step |dx/x| (scale invariance of the conjugate gradient map)')
+
+    def body():
+        f = F.one(name='newton_raphson_onesided')
+        atoms = set()
+        for val, ret, ev, tr in Walker(f, cut_loops=True).leaves():
+            atoms |= set(val)
+        step = [a for a in atoms if 'sqrt(epsilon())' in a]
+        ok = len(step) >= 1
+        for a in step:
+            # accepted forms: |dx / x| < tol, |dx| / |x| < tol, |dx| < tol * |x|
+            rel = (re.match(r'lt\(abs\(div\(.*, (arg1|var:x)\)\), sqrt\(epsilon\(\)\)\)$', a) is not None
+                   or re.match(r'lt\(div\(abs\(.*\), abs\((arg1|var:x)\)\), sqrt\(epsilon\(\)\)\)$', a) is not None
+                   or re.match(r'lt\(abs\(.*\), mul\((sqrt\(epsilon\(\)\), abs\((arg1|var:x)\)|abs\((arg1|var:x)\), sqrt\(epsilon\(\)\))\)\)$', a) is not None)
+            ok = ok and rel
+        R.check(ok, 'relative-step' + tag,
+                'newton_raphson_onesided compares %s with sqrt(eps): the step test must be relative to the iterate x (the root scales like the inverse '
+                'of the slack, so an absolute test stops immediately for slacks of magnitude 1e6 and above)' % (step or 'no step size'), f.loc())
+
+    R.guard(body)
+
+
 def run(ctx, rep, tier):
     for cfg in (CONFIGS_THOROUGH if tier == 'thorough' else CONFIGS):
         F = ctx.facts(cfg)
@@ -530,6 +557,7 @@ def run(ctx, rep, tier):
         reflection_symmetry(rep, F, E, tag)
         membership_guards(rep, F, tag)
         newton_start_siblings(rep, F, E, tag)
+        newton_relative_stop(rep, F, tag)
         R6 = rep.rule('C14.R6', 'unit initialisation overwrites both vectors of every cone wholly (the documented start point is reached on every solve, not only the first)')
         from . import c05
         R6.guard(lambda: c05.unit_init_must_write(R6, F, tag))
